@@ -130,6 +130,60 @@ template <class S, int D> void random_case(Ctx &ctx, int npairs) {
 }
 #undef C19
 
+// mixed scalar types: VectorT<A> op VectorT<B> and VectorT<A> op B. The component-wise definition is the scalar C++
+// expression on the components (usual arithmetic conversions, result converted to the declared result type).
+template <class A, class B, int D> void mixed_case(Ctx &ctx, int npairs) {
+    using C = decltype(std::declval<A>() * std::declval<B>());
+    Rng &rng = ctx.rng;
+    constexpr bool AU = std::is_same<A, unsigned>::value, CF = std::is_floating_point<C>::value;
+    std::string nm = std::string(Sc<A>::name()) + "x" + Sc<B>::name() + std::to_string(D);
+#define MX(cond, what, ...) do { cur()->cnt.add("vec.predicates"); if (!(cond)) VF_FAIL(std::string("oracle:vec.mixed.") + what, nm << " " << what << ": " << __VA_ARGS__); } while (0)
+    for (int k = 0; k < npairs; ++k) {
+        bool exact = k % 2 == 0;   // exact: every intermediate value is representable in float, so any evaluation order gives the same result
+        auto gen = [&](auto tag, bool nonneg) { using T = decltype(tag);
+            if constexpr (std::is_same<T, unsigned>::value) return (T)rng.below(7);
+            else if constexpr (std::is_same<T, int>::value) return (T)(nonneg ? (int)rng.below(7) : (int)rng.below(13) - 6);
+            else { double v = exact ? ((double)rng.below(129) - (nonneg ? 0 : 64)) / 8.0 : (rng.unit() - (nonneg ? 0 : 0.5)) * 16; if (std::fabs(v) < 0.01) v = 0.5; return (T)v; } };
+        VectorT<A, D> a; VectorT<B, D> b;
+        for (int i = 0; i < D; ++i) { a[i] = gen(A(), AU); b[i] = gen(B(), AU); }
+        B s = gen(B(), AU);
+        // dot
+        auto d = a | b; static_assert(std::is_same<decltype(d), C>::value, "dot product has the common type");
+        C e = C(a[0]) * C(b[0]); long double ld = (long double)a[0] * (long double)b[0], sc = std::fabs(ld);
+        for (int i = 1; i < D; ++i) { e = e + C(a[i]) * C(b[i]); long double t = (long double)a[i] * (long double)b[i]; ld += t; sc += std::fabs(t); }
+        bool ok = exact || !CF ? d == e : std::fabs((long double)d - ld) <= 8 * (long double)std::numeric_limits<C>::epsilon() * sc;
+        MX(ok && a.dot(b) == d, "dot", vstr(a) << "|" << vstr(b) << "=" << (long double)d << " expected " << (long double)e);
+        if constexpr (D == 3) {
+            auto c = a % b; auto c2 = a.cross(b);
+            static const int I1[3] = {1, 2, 0}, I2[3] = {2, 0, 1};
+            for (int i = 0; i < 3; ++i) {
+                auto ei = a[I1[i]] * b[I2[i]] - a[I2[i]] * b[I1[i]];
+                long double li = (long double)a[I1[i]] * (long double)b[I2[i]] - (long double)a[I2[i]] * (long double)b[I1[i]], si = std::fabs((long double)a[I1[i]] * (long double)b[I2[i]]) + std::fabs((long double)a[I2[i]] * (long double)b[I1[i]]);
+                bool okc = exact || !CF ? c[i] == ei : std::fabs((long double)c[i] - li) <= 8 * (long double)std::numeric_limits<C>::epsilon() * si;
+                MX(okc && c2[i] == c[i], "cross", vstr(a) << "%" << vstr(b) << " component " << i << " = " << (long double)c[i] << " expected " << (long double)ei);
+            }
+        }
+        // component-wise vector and scalar operations: result type VectorT<A>
+        VectorT<B, D> bd = b; for (int i = 0; i < D; ++i) if (bd[i] == B(0)) bd[i] = B(1);   // divisors are never zero
+        B sd = s == B(0) ? B(2) : s;
+        VectorT<A, D> sum = a + b, mul = a * b, quo = a / bd, scm = a * s, scq = a / sd;
+        VectorT<A, D> t1 = a, t2 = a, t3 = a, t4 = a, t5 = a; t1 += b; t2 *= b; t3 /= bd; t4 *= s; t5 /= sd;
+        for (int i = 0; i < D; ++i) {
+            A r = a[i]; r += b[i]; MX(sum[i] == r && t1[i] == r, "operator+", vstr(a) << "+" << vstr(b) << "=" << vstr(sum));
+            r = a[i]; r *= b[i]; MX(mul[i] == r && t2[i] == r, "operator*(vec)", vstr(a) << "*" << vstr(b) << "=" << vstr(mul));
+            r = a[i]; r /= bd[i]; MX(quo[i] == r && t3[i] == r, "operator/(vec)", vstr(a) << "/" << vstr(bd) << "=" << vstr(quo));
+            r = a[i]; r *= s; MX(scm[i] == r && t4[i] == r, "operator*(scalar)", vstr(a) << "*" << (long double)s << "=" << vstr(scm));
+            r = a[i]; r /= sd; MX(scq[i] == r && t5[i] == r, "operator/(scalar)", vstr(a) << "/" << (long double)sd << "=" << vstr(scq));
+        }
+        if constexpr (!AU) { VectorT<A, D> dif = a - b, t6 = a; t6 -= b; for (int i = 0; i < D; ++i) { A r = a[i]; r -= b[i]; MX(dif[i] == r && t6[i] == r, "operator-", vstr(a) << "-" << vstr(b) << "=" << vstr(dif)); } }
+        // converting construction / vector_cast keep the component-wise conversion
+        { VectorT<B, D> conv(a); VectorT<B, D> asg; asg = VectorT<B, D>(a); for (int i = 0; i < D; ++i) MX(conv[i] == (B)a[i] && asg[i] == (B)a[i], "conversion", vstr(a) << " -> " << vstr(conv)); }
+    }
+#undef MX
+    ctx.cnt.add("vec.pairs", npairs); ctx.cnt.add("vec.mixed-pairs", npairs); ctx.cnt.add("vec.mixed." + nm, npairs);
+    ctx.sample = "mixed scalar types " + nm;
+}
+
 static CaseFn mk_c19vec(const Args &a) {
     bool thorough = a.tier == "thorough";
     return [=](Ctx &ctx) {
@@ -139,6 +193,18 @@ static CaseFn mk_c19vec(const Args &a) {
         // even sub-cases: lattice chunks; odd: random/special values
         bool lattice = (sub % 2 == 0) && combo < 6;   // lattices for int / unsigned
         long long nch = thorough ? 49 : 7, chunk = (sub / 2) % nch;
+        if (sub % 4 == 3) {   // mixed scalar types: the 12 ordered pairs of distinct scalar types, dimension cycling with the sub-case
+            int dsel = (sub / 4) % 3, np = npairs / 2;
+#define MRUN(A, B) do { if (dsel == 0) mixed_case<A, B, 2>(ctx, np); else if (dsel == 1) mixed_case<A, B, 3>(ctx, np); else mixed_case<A, B, 4>(ctx, np); } while (0)
+            switch (combo) {
+            case 0: MRUN(int, unsigned); break; case 1: MRUN(int, float); break; case 2: MRUN(int, double); break;
+            case 3: MRUN(unsigned, int); break; case 4: MRUN(unsigned, float); break; case 5: MRUN(unsigned, double); break;
+            case 6: MRUN(float, int); break; case 7: MRUN(float, unsigned); break; case 8: MRUN(float, double); break;
+            case 9: MRUN(double, int); break; case 10: MRUN(double, unsigned); break; default: MRUN(double, float); break;
+            }
+#undef MRUN
+            ctx.fold((uint64_t)c); return;
+        }
 #define RUN(S, D) do { if (lattice) { if (D == 4 && !thorough) { lattice_case<S, D>(ctx, (sub / 2) % 343, 343); } else lattice_case<S, D>(ctx, chunk % nch, nch); } else random_case<S, D>(ctx, npairs); } while (0)
         switch (combo) {
         case 0: RUN(int, 2); break; case 1: RUN(int, 3); break; case 2: RUN(int, 4); break;
